@@ -55,12 +55,13 @@ def run_unphase(vcf_path, outfile):
                 if tag in record.format:
                     del record.format[tag]
             for call in record.samples.values():
-                if (
-                    call["GT"] is not None
-                    and call["GT"][0] is not None
-                    and call["GT"][1] is not None
-                ):
-                    call["GT"] = sorted(call["GT"])
+                if "GT" not in call:
+                    # record without a GT FORMAT field: nothing to unphase
+                    continue
+                gt = call["GT"]
+                if gt is not None and all(allele is not None for allele in gt):
+                    # any ploidy; genotypes with missing alleles keep their order
+                    call["GT"] = sorted(gt)
                 call.phased = False
             writer.write(record)
 
